@@ -111,6 +111,27 @@ Definition c09l_last_of (s0 : St) (k : nat) : option (nat * F) :=
 Definition c09l_evs (s0 : St) (tol : F) (p : nat) (j : nat) : list (event F) :=
   cpals_iter_events p j (fitat s0 j) (fitbefore s0 j) (trig s0 tol j).
 
+Lemma c09l_loop_S : forall tol p rem k s fit last,
+  loop tol p (S rem) k s fit last
+  = if (0 <? k) && fchange_lt fit (snd (fit_mttkrp (sweep k s))) tol
+    then Some (mkLoopout (sweep k s) k (fst (fit_mttkrp (sweep k s))) (snd (fit_mttkrp (sweep k s)))
+                 (cpals_iter_events p k (snd (fit_mttkrp (sweep k s))) fit
+                    ((0 <? k) && fchange_lt fit (snd (fit_mttkrp (sweep k s))) tol))
+                 [snd (fit_mttkrp (sweep k s))])
+    else match loop tol p rem (S k) (sweep k s) (snd (fit_mttkrp (sweep k s)))
+                 (Some (k, fst (fit_mttkrp (sweep k s)))) with
+         | None => None
+         | Some o => Some (mkLoopout (lo_state o) (lo_iter o) (lo_nr o) (lo_fit o)
+                       (cpals_iter_events p k (snd (fit_mttkrp (sweep k s))) fit
+                          ((0 <? k) && fchange_lt fit (snd (fit_mttkrp (sweep k s))) tol) ++ lo_log o)
+                       (snd (fit_mttkrp (sweep k s)) :: lo_trace o))
+         end.
+Proof. reflexivity. Qed.
+
+Lemma c09l_stop_S : forall s0 tol rem k,
+  stopfrom s0 tol (S rem) k = if trig s0 tol k then k else stopfrom s0 tol rem (S k).
+Proof. reflexivity. Qed.
+
 Lemma c09l_loop_closed : forall s0 tol p rem k, 0 < rem + k ->
   loop tol p rem k (isw k s0) (fitbefore s0 k) (c09l_last_of s0 k)
   = let n := stopfrom s0 tol rem k in
@@ -118,22 +139,23 @@ Lemma c09l_loop_closed : forall s0 tol p rem k, 0 < rem + k ->
                     (flat_map (c09l_evs s0 tol p) (seq k (S n - k)))
                     (map (fitat s0) (seq k (S n - k)))).
 Proof.
-  intros s0 tol p rem; induction rem as [|rem IH]; intros k Hk.
+  intros s0 tol p rem; induction rem as [|rem IH]; intros k Hk; cbv zeta.
   - destruct k as [|j]; [lia|]. cbn -[Nat.sub].
     replace (S j - 1) with j by lia. rewrite Nat.sub_diag. reflexivity.
-  - cbn -[Nat.sub]. fold loop. fold trig.
+  - rewrite c09l_loop_S, c09l_stop_S.
     change (sweep k (isw k s0)) with (isw (S k) s0).
     change (snd (fit_mttkrp (isw (S k) s0))) with (fitat s0 k).
     change ((0 <? k) && fchange_lt (fitbefore s0 k) (fitat s0 k) tol) with (trig s0 tol k).
     destruct (trig s0 tol k) eqn:E.
-    + replace (S k - k) with 1 by lia. cbn. unfold c09l_evs. rewrite E, app_nil_r. reflexivity.
-    + specialize (IH (S k)).
-      change (fitat s0 k) with (fitbefore s0 (S k)) at 2.
+    + replace (S k - k) with 1 by lia. cbn [seq flat_map map].
+      unfold c09l_evs. rewrite E, app_nil_r. reflexivity.
+    + specialize (IH (S k)). cbv zeta in IH.
+      change (fitat s0 k) with (fitbefore s0 (S k)) at 1.
       change (Some (k, fst (fit_mttkrp (isw (S k) s0)))) with (c09l_last_of s0 (S k)).
-      fold stopfrom. rewrite IH by lia. cbn -[Nat.sub].
+      rewrite IH by lia. cbn [lo_state lo_iter lo_nr lo_fit lo_log lo_trace].
       pose proof (c09l_stop_ge s0 tol rem (S k)) as Hge.
       replace (S (stopfrom s0 tol rem (S k)) - k) with (S (S (stopfrom s0 tol rem (S k)) - S k)) by lia.
-      cbn -[Nat.sub]. unfold c09l_evs at 2. rewrite E. reflexivity.
+      cbn [seq flat_map map]. unfold c09l_evs at 2. rewrite E. reflexivity.
 Qed.
 
 Theorem cpals_run_closed : forall tol p s0 m dofix, 0 < m ->
@@ -148,17 +170,20 @@ Theorem cpals_run_closed : forall tol p s0 m dofix, 0 < m ->
           else mkResult fin n (fst (fit_mttkrp pre)) (snd (fit_mttkrp pre)) []
                         (map (fitat s0) (seq 0 (S n)))).
 Proof.
-  intros tol p s0 m dofix Hm.
-  unfold run, cpals_run. fold loop.
-  pose proof (c09l_loop_closed s0 tol p m 0) as H. cbn -[Nat.sub] in H.
-  rewrite H by lia. clear H. cbn -[Nat.sub seq]. rewrite Nat.sub_0_r.
-  fold stopfrom. fold finish. unfold stopidx, cpals_stop_index. fold stopfrom.
-  destruct (0 <? p) eqn:Ep.
-  - reflexivity.
-  - f_equal. f_equal.
-    destruct p as [|p]; [|discriminate Ep].
-    clear. induction (seq 0 (S (stopfrom s0 tol m 0))) as [|a l IH]; [reflexivity|].
-    simpl. exact IH.
+  intros tol p s0 m dofix Hm. cbv zeta.
+  unfold cpals_run.
+  pose proof (c09l_loop_closed s0 tol p m 0) as H. cbv zeta in H.
+  change (isw 0 s0) with s0 in H. change (fitbefore s0 0) with fit0 in H.
+  change (c09l_last_of s0 0) with (@None (nat * F)) in H.
+  rewrite H by lia. clear H.
+  cbn [lo_state lo_iter lo_nr lo_fit lo_log lo_trace]. rewrite Nat.sub_0_r.
+  unfold cpals_stop_index.
+  destruct p as [|p].
+  - change (0 <? 0) with false. cbv iota. f_equal. f_equal.
+    rewrite app_nil_l.
+    induction (seq 0 (S (stopfrom s0 tol m 0))) as [|a l IH]; [reflexivity|].
+    cbn [flat_map]. rewrite IH, app_nil_r. reflexivity.
+  - change (0 <? S p) with true. cbv iota. reflexivity.
 Qed.
 
 (* ---------- the requested theorems ---------- *)
@@ -200,11 +225,11 @@ Proof.
   { destruct m; [|lia]. assert (E : run tol p s0 0 dofix = None) by reflexivity. congruence. }
   rewrite cpals_run_closed in H by exact Hm. cbv zeta in H.
   injection H as H. split; [exact Hm|].
-  destruct p as [|p]; cbn [Nat.ltb Nat.leb] in H; subst r; cbn [r_iters r_trace r_state r_normres r_fit r_log].
-  - repeat split; try reflexivity; try lia. intros _. split; [|reflexivity].
-    symmetry; apply surjective_pairing.
-  - repeat split; try reflexivity; try lia. intros _. split; [|reflexivity].
-    symmetry; apply surjective_pairing.
+  destruct p as [|p];
+    [change (0 <? 0) with false in H | change (0 <? S p) with true in H];
+    cbv iota in H; subst r; cbn [r_iters r_trace r_state r_normres r_fit r_log];
+    (split; [reflexivity|]); (split; [reflexivity|]); (split; [reflexivity|]); split; intros Hp;
+    try lia; (split; [symmetry; apply surjective_pairing | reflexivity]).
 Qed.
 
 Theorem cpals_iters_bound : forall tol p s0 m dofix r,
@@ -212,7 +237,7 @@ Theorem cpals_iters_bound : forall tol p s0 m dofix r,
   r_iters r < m /\ length (r_trace r) = S (r_iters r).
 Proof.
   intros tol p s0 m dofix r H.
-  destruct (c09l_run_proj _ _ _ _ _ H) as (Hm & Hi & Ht & _).
+  destruct (c09l_run_proj _ _ _ _ _ _ H) as (Hm & Hi & Ht & _).
   split.
   - rewrite Hi. pose proof (c09l_stop_range s0 tol m 0 Hm). unfold stopidx, cpals_stop_index. fold stopfrom. lia.
   - rewrite Ht, map_length, seq_length. reflexivity.
@@ -223,7 +248,7 @@ Theorem cpals_trace_eq : forall tol p s0 m dofix r,
   r_trace r = map (fun k => snd (fit_mttkrp (isw (S k) s0))) (seq 0 (S (r_iters r))).
 Proof.
   intros tol p s0 m dofix r H.
-  destruct (c09l_run_proj _ _ _ _ _ H) as (_ & _ & Ht & _). exact Ht.
+  destruct (c09l_run_proj _ _ _ _ _ _ H) as (_ & _ & Ht & _). exact Ht.
 Qed.
 
 Theorem cpals_trace_sweeps : forall tol p s0 m dofix r,
@@ -233,7 +258,7 @@ Theorem cpals_trace_sweeps : forall tol p s0 m dofix r,
   r_state r = finish dofix (isw (S (r_iters r)) s0).
 Proof.
   intros tol p s0 m dofix r H.
-  destruct (c09l_run_proj _ _ _ _ _ H) as (_ & _ & Ht & Hs & _).
+  destruct (c09l_run_proj _ _ _ _ _ _ H) as (_ & _ & Ht & Hs & _).
   split; [|exact Hs].
   intros k Hk. rewrite Ht. rewrite c09l_nth_error_map_seq by lia. reflexivity.
 Qed.
@@ -243,7 +268,7 @@ Lemma c09l_trace_nth : forall tol p s0 m dofix r k,
   nth k (r_trace r) fit0 = fitat s0 k.
 Proof.
   intros tol p s0 m dofix r k H Hk.
-  destruct (c09l_run_proj _ _ _ _ _ H) as (_ & _ & Ht & _).
+  destruct (c09l_run_proj _ _ _ _ _ _ H) as (_ & _ & Ht & _).
   rewrite Ht. apply c09l_nth_map_seq. lia.
 Qed.
 
@@ -268,7 +293,7 @@ Theorem cpals_stop_rule : forall tol p s0 m dofix r,
      fchange_lt (nth (k - 1) t fit0) (nth k t fit0) tol = false).
 Proof.
   intros tol p s0 m dofix r H t. subst t.
-  destruct (c09l_run_proj _ _ _ _ _ H) as (Hm & Hi & _).
+  destruct (c09l_run_proj _ _ _ _ _ _ H) as (Hm & Hi & _).
   unfold stopidx, cpals_stop_index in Hi. fold stopfrom in Hi.
   split.
   - intros Hlt.
@@ -277,12 +302,12 @@ Proof.
     assert (Hpos : r_iters r > 0).
     { destruct (r_iters r); [rewrite c09l_trig_zero in Ht; discriminate Ht | lia]. }
     split; [exact Hpos|].
-    rewrite (c09l_trace_nth _ _ _ _ _ H) by lia.
-    rewrite (c09l_trace_nth _ _ _ _ _ H) by lia.
+    rewrite (c09l_trace_nth _ _ _ _ _ _ _ H) by lia.
+    rewrite (c09l_trace_nth _ _ _ _ _ _ _ H) by lia.
     rewrite <- c09l_trig_pos by lia. exact Ht.
   - intros k Hk.
-    rewrite (c09l_trace_nth _ _ _ _ _ H) by lia.
-    rewrite (c09l_trace_nth _ _ _ _ _ H) by lia.
+    rewrite (c09l_trace_nth _ _ _ _ _ _ _ H) by lia.
+    rewrite (c09l_trace_nth _ _ _ _ _ _ _ H) by lia.
     rewrite <- c09l_trig_pos by lia.
     apply (c09l_stop_first s0 tol m 0). rewrite <- Hi. lia.
 Qed.
@@ -295,14 +320,14 @@ Theorem cpals_stop_least : forall tol p s0 m dofix r,
   (forall k, 0 < k < r_iters r -> fchange_lt (fitat s0 (k - 1)) (fitat s0 k) tol = false).
 Proof.
   intros tol p s0 m dofix r H.
-  pose proof (cpals_stop_rule _ _ _ _ _ H) as (Ha & Hb).
-  pose proof (cpals_iters_bound _ _ _ _ _ H) as (Hlt & _).
+  pose proof (cpals_stop_rule _ _ _ _ _ _ H) as (Ha & Hb).
+  pose proof (cpals_iters_bound _ _ _ _ _ _ H) as (Hlt & _).
   split.
   - destruct (Nat.eq_dec (r_iters r) (m - 1)) as [E|E]; [left; exact E|right].
     destruct Ha as (Hp & Hc); [lia|]. split; [lia|].
-    rewrite !(c09l_trace_nth _ _ _ _ _ H) in Hc by lia. exact Hc.
+    rewrite !(c09l_trace_nth _ _ _ _ _ _ _ H) in Hc by lia. exact Hc.
   - intros k Hk. specialize (Hb k Hk).
-    rewrite !(c09l_trace_nth _ _ _ _ _ H) in Hb by lia. exact Hb.
+    rewrite !(c09l_trace_nth _ _ _ _ _ _ _ H) in Hb by lia. exact Hb.
 Qed.
 
 Theorem cpals_truncation : forall tol p1 p2 d1 d2 s0 m1 m2 r1 r2,
@@ -313,8 +338,8 @@ Theorem cpals_truncation : forall tol p1 p2 d1 d2 s0 m1 m2 r1 r2,
   r_iters r1 = Nat.min (r_iters r2) (m1 - 1).
 Proof.
   intros tol p1 p2 d1 d2 s0 m1 m2 r1 r2 Hle H1 H2.
-  destruct (c09l_run_proj _ _ _ _ _ H1) as (Hm1 & Hi1 & Ht1 & _).
-  destruct (c09l_run_proj _ _ _ _ _ H2) as (Hm2 & Hi2 & Ht2 & _).
+  destruct (c09l_run_proj _ _ _ _ _ _ H1) as (Hm1 & Hi1 & Ht1 & _).
+  destruct (c09l_run_proj _ _ _ _ _ _ H2) as (Hm2 & Hi2 & Ht2 & _).
   assert (Hmin : r_iters r1 = Nat.min (r_iters r2) (m1 - 1)).
   { rewrite Hi1, Hi2. unfold stopidx, cpals_stop_index. fold stopfrom.
     rewrite (c09l_stop_trunc s0 tol m1 m2 0) by lia. f_equal. }
@@ -329,8 +354,8 @@ Theorem cpals_print_indep_state : forall tol p1 p2 s0 m dofix r1 r2,
   r_state r1 = r_state r2 /\ r_iters r1 = r_iters r2 /\ r_trace r1 = r_trace r2.
 Proof.
   intros tol p1 p2 s0 m dofix r1 r2 H1 H2.
-  destruct (c09l_run_proj _ _ _ _ _ H1) as (_ & Hi1 & Ht1 & Hs1 & _).
-  destruct (c09l_run_proj _ _ _ _ _ H2) as (_ & Hi2 & Ht2 & Hs2 & _).
+  destruct (c09l_run_proj _ _ _ _ _ _ H1) as (_ & Hi1 & Ht1 & Hs1 & _).
+  destruct (c09l_run_proj _ _ _ _ _ _ H2) as (_ & Hi2 & Ht2 & Hs2 & _).
   assert (E : r_iters r1 = r_iters r2) by congruence.
   rewrite Hs1, Hs2, Ht1, Ht2, E. repeat split.
 Qed.
@@ -344,11 +369,11 @@ Theorem cpals_print_indep_reach : forall tol p1 p2 s0 m dofix r1 r2,
   r_normres r1 = r_normres r2 /\ r_fit r1 = r_fit r2 /\ r_trace r1 = r_trace r2.
 Proof.
   intros tol p1 p2 s0 m dofix r1 r2 Hfit H1 H2.
-  destruct (cpals_print_indep_state _ _ _ _ _ H1 H2) as (Es & Ei & Et).
+  destruct (cpals_print_indep_state _ _ _ _ _ _ _ _ H1 H2) as (Es & Ei & Et).
   assert (Hrep : forall p r, run tol p s0 m dofix = Some r ->
             (r_normres r, r_fit r) = fit_mttkrp (isw (S (r_iters r)) s0)).
   { intros p r H.
-    destruct (c09l_run_proj _ _ _ _ _ H) as (_ & _ & _ & Hs & H0 & Hp).
+    destruct (c09l_run_proj _ _ _ _ _ _ H) as (_ & _ & _ & Hs & H0 & Hp).
     destruct p as [|p].
     - apply H0. reflexivity.
     - destruct Hp as (Hp & _); [lia|]. rewrite Hp, Hs. apply Hfit. }
@@ -372,7 +397,7 @@ Theorem cpals_log_silent : forall tol s0 m dofix r,
   run tol 0 s0 m dofix = Some r -> r_log r = [].
 Proof.
   intros tol s0 m dofix r H.
-  destruct (c09l_run_proj _ _ _ _ _ H) as (_ & _ & _ & _ & H0 & _).
+  destruct (c09l_run_proj _ _ _ _ _ _ H) as (_ & _ & _ & _ & H0 & _).
   apply H0. reflexivity.
 Qed.
 
@@ -381,7 +406,7 @@ Theorem cpals_log_printing : forall tol p s0 m dofix r, p > 0 ->
   r_log r = EvHeader :: iterlog s0 tol p (r_iters r) ++ [EvFinal (r_fit r)].
 Proof.
   intros tol p s0 m dofix r Hp H.
-  destruct (c09l_run_proj _ _ _ _ _ H) as (_ & _ & _ & _ & _ & H1).
+  destruct (c09l_run_proj _ _ _ _ _ _ H) as (_ & _ & _ & _ & _ & H1).
   apply H1. exact Hp.
 Qed.
 
@@ -391,11 +416,60 @@ Theorem cpals_report_consistent : forall tol p s0 m dofix r,
   (p > 0 -> (r_normres r, r_fit r) = fit_innerprod (r_state r)).
 Proof.
   intros tol p s0 m dofix r H.
-  destruct (c09l_run_proj _ _ _ _ _ H) as (_ & _ & _ & _ & H0 & H1).
+  destruct (c09l_run_proj _ _ _ _ _ _ H) as (_ & _ & _ & _ & H0 & H1).
   split; intros Hp; [apply H0|apply H1]; exact Hp.
 Qed.
 
 End Proofs.
+
+(* ---------- the theorems on a concrete run (non-vacuity of the hypotheses) ---------- *)
+From Coq Require Import ZArith.
+
+Module C09LoopProofExamples.
+Import C09LoopExamples.
+Local Open Scope Z_scope.
+
+(* an innerprod formula that does satisfy the fit identity through arrange (s + 10000), no sign fixing *)
+Definition ex_fit_ip_ok (s : Z) : Z * Z := ex_fit (s - 10000).
+
+Lemma ex_fit_identity : forall s,
+  ex_fit_ip_ok (cpals_finish (fun s => s + 10000) (fun s => - s) false s) = ex_fit s.
+Proof. intros s. unfold ex_fit_ip_ok, cpals_finish, id. f_equal. lia. Qed.
+
+Definition ex_run_ok := cpals_run ex_sweep ex_fit ex_fit_ip_ok ex_lt 0 (fun s => s + 10000) (fun s => - s).
+
+Example ex_print_indep_applies : forall p1 p2 r1 r2,
+  ex_run_ok 5 p1 80 10%nat false = Some r1 ->
+  ex_run_ok 5 p2 80 10%nat false = Some r2 ->
+  r_state r1 = r_state r2 /\ r_iters r1 = r_iters r2 /\
+  r_normres r1 = r_normres r2 /\ r_fit r1 = r_fit r2 /\ r_trace r1 = r_trace r2.
+Proof. intros p1 p2 r1 r2. apply cpals_print_indep. exact ex_fit_identity. Qed.
+
+Example ex_print_indep_values :
+  ex_run_ok 5 0%nat 80 10%nat false = Some (mkResult 10006 3%nat 6 94 [] [60; 79; 90; 94]) /\
+  ex_run_ok 5 3%nat 80 10%nat false
+  = Some (mkResult 10006 3%nat 6 94 [EvHeader; EvIter 0 60 0; EvIter 3 94 90; EvFinal 94] [60; 79; 90; 94]).
+Proof. split; vm_compute; reflexivity. Qed.
+
+(* without the identity only state / iters / trace agree (A-43): ex_fit_ip differs from ex_fit *)
+Example ex_print_dep_values :
+  option_map (@r_fit Z Z) (ex_run 5 0%nat 80 10%nat false) = Some 94 /\
+  option_map (@r_fit Z Z) (ex_run 5 1%nat 80 10%nat false) = Some (-8906).
+Proof. split; vm_compute; reflexivity. Qed.
+
+(* truncated runs reproduce the prefix of the long run *)
+Example ex_truncation_values :
+  option_map (@r_trace Z Z) (ex_run 5 0%nat 80 2%nat false) = Some [60; 79] /\
+  option_map (@r_trace Z Z) (ex_run 5 0%nat 80 10%nat false) = Some [60; 79; 90; 94] /\
+  option_map (@r_iters Z Z) (ex_run 5 0%nat 80 2%nat false) = Some (Nat.min 3 (2 - 1)).
+Proof. repeat split; vm_compute; reflexivity. Qed.
+
+Example ex_stop_index :
+  cpals_stop_index ex_sweep ex_fit ex_lt 0 80 5 10%nat = 3%nat /\
+  cpals_stop_index ex_sweep ex_fit ex_lt 0 80 5 3%nat = 2%nat.
+Proof. split; vm_compute; reflexivity. Qed.
+
+End C09LoopProofExamples.
 
 Print Assumptions cpals_run_closed.
 Print Assumptions cpals_crash_iff.
